@@ -531,13 +531,17 @@ def present {α : Type} [DecidableEq α] (k : α) (l : List (α × Option String
   | some (some _) => true
   | _ => false
 
+/-- `calccfg.get("emodulus medium", "other").lower() == "other"` -/
+def otherFlag (cv : List (Key × Option String)) : Bool :=
+  match get "calculation:emodulus medium" cv with
+  | some (some m) => m == "other"
+  | _ => true
+
 /-- the branches of the methods that raise although the recipe was selected -/
 def raises (method : String) (fv : List (Feat × Option String))
     (cv : List (Key × Option String)) : Bool :=
   if method = "compute_emodulus" then
-    let other := match get "calculation:emodulus medium" cv with
-      | some (some m) => m == "other"
-      | _ => true
+    let other := otherFlag cv
     let visc := present "calculation:emodulus viscosity" cv
     if visc && other then false                      -- scenario B
     else if other then true                          -- "Only the following media are supported"
